@@ -91,6 +91,11 @@ ONES = dict(name='OneShotMergeProcessor.ShouldConsumeCommit', probe='k12o', fam=
             case_start=r'^new$', nontrivial=nt_len(4),
             rule='replay sequences over 1-8 commits with 0-5 parents, merges replayed once per parent branch (or fewer), adjacent '
                  'or interleaved, on one shared processor')
+K11D = dict(name='FileDiff.Consume output through the Lean script validator', probe='k11d', fam=['ln'], quick=60000, thorough=2000000,
+            nontrivial=lambda ops, impl: ops[0].count(',') >= 4,
+            rule='blob pairs of 0-9 lines from a pool with duplicates, CRLF, invalid UTF-8, missing final newline, or from three '
+                 'distinct lines only; cleanup on/off; every script is checked by Bd.validScript (equal runs identical, counts, '
+                 'canonical shape)')
 CD = dict(name='Burndown Serialize/Deserialize rows+CSR', probe='k17', fam=['cd'], quick=4000, thorough=80000,
           nontrivial=nt_any, rule='random dense matrices incl. negatives, zeros, 2^32-1; CSR interaction matrices')
 CDC = dict(name='Couples/Devs Serialize/Deserialize (map CSR, names, lines, touched files, ticks)', probe='k17c', fam=['cd'],
@@ -224,7 +229,7 @@ PROPS = {
     'C08': dict(corr=[DAG, RBC, RBW, PFORK]),
     'C09': dict(corr=[RUN, HB, HBF, E01]),
     'C10': dict(level='translation_validation', corr=[RES, E10]),
-    'C11': dict(corr=[LN, E11]),
+    'C11': dict(corr=[LN, K11D, E11]),
     'C12': dict(corr=[LN, LNC, ONES, RUN, E14]),
     'C13': dict(corr=[RN]),
     'C14': dict(corr=[RUN, E14]),
